@@ -506,12 +506,22 @@ def run(ck):
              (dict(spec_catalogue("SIR"), t0=0.0, x0_int="list"), [2.5, 5.0, 7.5, 10.0]),
              (dict(spec_catalogue("SEIR"), t0=0.0, x0_int="array"), [1.0, 2.0, 4.0, 8.0]),
              # (e) log-spaced output times: the longest interval is more than 1e4 times the shortest
-             (dict(spec_catalogue("SIR_norm"), t0=0.0), [float(v) for v in np.logspace(-4, 1.5, 12)])]
+             (dict(spec_catalogue("SIR_norm"), t0=0.0), [float(v) for v in np.logspace(-4, 1.5, 12)]),
+             # (f) the first requested time is the initial time itself (np.linspace(t0, T, n)): one row per requested time
+             (dict(spec_catalogue("SIR_norm"), t0=1.0, _grid_from_t0=True), [1.0, 2.0, 3.5, 7.0]),
+             # (g) head counts: one infective in sixty million (a small driving compartment next to a huge one)
+             (dict(spec_catalogue("SIS"), t0=0.0, params=dict(beta=0.5, gamma=0.2, N=6.0e7), x0=[6.0e7 - 1.0, 1.0], T=30.0),
+              [5.0, 10.0, 20.0, 30.0])]
     for spec, grid in fixed:
         stats["grids"]["corpus"] = stats["grids"].get("corpus", 0) + 1
         # the long gap is run on the methods whose step budget (nsteps / mxstep = 10000) covers it; vode/ivode (BDF/Adams at
         # pygom's tolerances) exhaust it and say so with an IntegrationError, which is not a wrong answer
         cs = [c for c in calls if not (spec["name"] == "Spiral" and c.get("method") in ("vode", "ivode"))]
+        if spec.get("_grid_from_t0"):
+            # a zero-length first step: integrate / solve_determ and integrate2 with the lsoda / vode family solve it; the direct
+            # integrateFuncJac calls and dopri5 / dop853 refuse it with an IntegrationError (explicit, recorded as an observation)
+            cs = [c for c in cs if c["entry"] in ("integrate", "solve_determ")
+                  or (c["entry"] == "integrate2" and c.get("method") in (None, "lsoda", "vode", "ivode"))]
         for call, cls, what in sweep(ck, spec, grid, cs, stats, cases):
             violations.append((spec, grid, call, cls, what))
     # ---- several solves on one model: after `initial_time` alone is changed, the same grid must be solved from the new t0
